@@ -6,7 +6,7 @@
    algorithm, .changes file lines).  A changed or dropped tag makes the corresponding lemma fail to compile. *)
 From Coq Require Import List Ascii String Bool Arith NArith ZArith Lia.
 Require Import SchemaDefs Schema_gen.
-Require GS R2 R2u L10 L12 L13 ACC ACC2 PATH D3 C9G CX CX2 CX3 C10E.
+Require GS R2 R2u L10 L12 L13 ACC ACC2 PATH D3 C9G C9F CX CX2 CX3 C10E.
 Import ListNotations.
 
 Lemma C10_dsc_schema_ok : schema_ok dsc_schema dsc_table = true.
@@ -37,14 +37,31 @@ Print Assumptions C10_decode_pointwise.
 
 (* the document level: the typed parser applied to a text is the field-by-field decoder applied to the first paragraph
    the deb822 reader (C07) returns for it; a required field absent from that paragraph makes it fail *)
+(* (field names are looked up exactly or else in another letter case - C9F.lookup_fold, the repair of the r13 finding
+   field-name-case; on a paragraph spelled as the struct spells its fields that is C9G.lookup: C10_lookup_spelled) *)
 Theorem C10_document : forall sch text p ps r, Forall R2u.uclean (GS.lines_of text) -> R2.read_all text = Some (p :: ps) ->
   (CX.decode_text sch text = Some r <->
-   Forall2 (C9G.field_spec CX.fd CX.cval CX.czero CX.cdecode (R2.values p)) (CX.gschema sch) r).
+   Forall2 (C9F.field_spec_fold CX.fd CX.cval CX.czero CX.cdecode (R2.values p)) (CX.gschema sch) r).
 Proof. exact C10E.C10_document. Qed.
 Theorem C10_required_field_missing : forall sch text p ps f, Forall R2u.uclean (GS.lines_of text) -> R2.read_all text = Some (p :: ps) ->
-  In f (CX.gschema sch) -> C9G.frequired CX.fd f = true -> C9G.lookup (C9G.fkey CX.fd f) (R2.values p) = None ->
+  In f (CX.gschema sch) -> C9G.frequired CX.fd f = true -> C9F.lookup_fold (C9G.fkey CX.fd f) (R2.values p) = None ->
   CX.decode_text sch text = None.
 Proof. exact C10E.C10_required_field_missing. Qed.
+(* the decoder the code runs and the decoder of the theorems above it agree on paragraphs spelled as the struct spells
+   its fields; and the letter case of the field names of a paragraph (no two of which differ in case only) is immaterial *)
+Theorem C10_decoder_on_spelled_paragraphs : forall sch p, C9F.spelled CX.fd (CX.gschema sch) p ->
+  C9F.decode_fold CX.fd CX.cval CX.czero CX.cdecode (CX.gschema sch) p = C9G.decode CX.fd CX.cval CX.czero CX.cdecode (CX.gschema sch) p.
+Proof. intros sch. exact (C9F.decode_fold_spelled CX.fd CX.cval CX.czero CX.cdecode (CX.gschema sch)). Qed.
+Theorem C10_field_names_are_case_insensitive : forall sch p p', C9F.fold_distinct p -> C9F.respelled p p' ->
+  C9F.decode_fold CX.fd CX.cval CX.czero CX.cdecode (CX.gschema sch) p = C9F.decode_fold CX.fd CX.cval CX.czero CX.cdecode (CX.gschema sch) p'.
+Proof. intros sch. exact (C9F.decode_fold_respelled CX.fd CX.cval CX.czero CX.cdecode (CX.gschema sch)). Qed.
+(* no struct of the library has two fields whose names differ in letter case only (regenerated schemas, every run) - the
+   side condition under which what Marshal writes is spelled as the struct spells it (C9F.own_spelled) *)
+Lemma C10_library_schemas_fold_distinct :
+  forallb (fun e => let ks := map (fun f => C9F.fold (C9G.fkey CX.fd f)) (CX.gschema (fst (snd e))) in
+                    Nat.eqb (List.length (nodup (list_eq_dec Ascii.ascii_dec) ks)) (List.length ks)) Schema_gen.all_schemas = true.
+Proof. vm_compute. reflexivity. Qed.
+Print Assumptions C10_field_names_are_case_insensitive.
 Print Assumptions C10_document.
 
 (* list fields: a delimiter outside the strip set; items = (blanks, element, blanks) joined by the delimiter,
